@@ -134,7 +134,8 @@ def run_contract(con, timeout_ms=10000, keep_models=True, verbose=False):
         res.path_outcomes[outcome] = res.path_outcomes.get(outcome, 0) + 1
         res.functions.update(ip.inlined)
         # discharge this path's obligations
-        for ob in ctx.obligations:
+        ctx.solving = True
+        for ob in list(ctx.obligations):
             if con.hints is not None and outcome != "unsupported":
                 try:
                     for t in con.hints(ctx, st, list(ob.extra_terms)):
